@@ -81,6 +81,13 @@ def r23(ctx, chk, rule2="C03.2", rule3="C03.3"):
         k = K.kernel(ctx, cls, "prune_paths")
         where = k.func.where()
         stores = _store_of_next_states(k.sx)
+        if len(stores) == 2 and stores[0][0] == TRUE:
+            # filter first (unconditionally), rewrite what is left afterwards: when the second store is skipped the first one
+            # stands, and it is judged here - a plain alive-filter of the whole list; the second one is then judged as the store
+            k0 = k.kfold(stores[0][4])
+            if k0 is not None and k0.kind == "COMPR" and k0.source == SELF_NEXT and k0.whole and k0.term == ("e",) \
+                    and _alive_filter_verdict(_dead_set_filter(ctx, k, k0.filter) or k0.filter) is None:
+                stores = stores[1:]
         if len(stores) != 1:
             if _sequential_removal(ctx, chk, k, cls, rule3, where):
                 continue
@@ -205,6 +212,10 @@ def _something_dropped(k, cond):
         if ko is not None and ko.kind == "COMPR" and ko.source == SELF_NEXT and ko.filter == simp(("cmp", "==", SF(REACH), C(0))):
             return "D"
         return None
+    while cond[0] == "truthy" and (cond[1][0] == "truthy" or (cond[1][0] == "call" and cond[1][1] == "bool" and len(cond[1][2]) == 1)):
+        cond = ("truthy", cond[1][1] if cond[1][0] == "truthy" else cond[1][2][0])
+    if cond[0] == "truthy" and kind(("call", "len", (cond[1],), ())) == "D":
+        return True                   # `if dead:` with dead = the successors that are filtered out (a partition of the list)
     if cond[0] == "truthy":
         cond = simp(("cmp", "!=", cond[1], C(0)))
     if cond[0] != "cmp":
@@ -394,6 +405,16 @@ def _den_text(k, D):
 
 def _denominator(k, D):
     """True if D is the surviving mass; a text if recognisably something else; None if unknown."""
+    # a dictionary built from transitions merges those with an equal first component (two dead successors with the same
+    # probability): whatever is summed over it afterwards is not a mass of the transition list
+    for t in _sub(D):
+        if (t[0] == "call" and t[1] == "dict" and len(t[2]) == 1) or (t[0] == "mcall" and t[2] == "update" and len(t[3]) == 1):
+            arg = t[2][0] if t[0] == "call" else t[3][0]
+            if arg[0] == "call" and arg[1] == "dict" and len(arg[2]) == 1:
+                arg = arg[2][0]
+            le = k.listexpr(arg)
+            if le is not None and le[0] == SELF_NEXT and le[2] in (("e",), ("tup", (("p",), ("t",)))):
+                return "computed from `%s`: a dictionary keyed by the probability keeps one of several successors with equal probability" % show(t)[:80]
     kf = k.kfold(D)
     dead = simp(("cmp", "==", SF(REACH), C(0)))
     if kf is not None and kf.kind == "SUM":
@@ -565,6 +586,11 @@ def r5_dispatch(ctx, chk, rule="C03.5"):
     sx = SymX(ctx, f, "Solver", inline_depth=0).run()
     slist = shared.SLIST(ctx)
     loops = [l for l in sx.loops.values() if l.kind == "for"]
+    nested = {i for l in sx.loops.values() for i in l.inner}
+    outer = [l for l in loops if l.id not in nested]
+    if len(outer) == 1 and len(loops) > 1:
+        # loops inside the dispatch loop (bookkeeping over what a call returned) do not change which states are visited
+        loops = outer
     if len(loops) != 1:
         chk.undecided(rule, f.where(), "%d loops in Solver.prune_paths" % len(loops))
         return
@@ -642,6 +668,60 @@ def _player_set(cond, st):
     return None
 
 
+def _shrinks(k, sx, val, own, depth=0):
+    """Is `val` (the new next_states) a sub-list of `own` with targets preserved?  ('ok' | 'bad' | 'unknown', text)"""
+    if depth > 4:
+        return "unknown", ""
+    if val == ("list", ()):
+        return "ok", "[]"
+    if val == own:
+        return "ok", "itself"
+    if val[0] == "ite":
+        a = _shrinks(k, sx, val[2], own, depth + 1)
+        b = _shrinks(k, sx, val[3], own, depth + 1)
+        for r in (a, b):
+            if r[0] == "bad":
+                return r
+        if a[0] == "ok" and b[0] == "ok":
+            return "ok", "%s or %s" % (a[1], b[1])
+        return "unknown", ""
+    if val[0] == "call" and val[1] in ("list", "sorted", "tuple") and len(val[2]) == 1:
+        return _shrinks(k, sx, val[2][0], own, depth + 1)
+    if val[0] == "slice" and val[1] == own:
+        return "ok", "a slice of itself"
+    if val[0] == "cat":
+        parts = [_shrinks(k, sx, x, own, depth + 1) for x in (val[1], val[2])]
+        if any(x in (("list", ()),) for x in (val[1], val[2])):
+            other = val[2] if val[1] == ("list", ()) else val[1]
+            return _shrinks(k, sx, other, own, depth + 1)
+        if any(x[0] == "list" and x[1] for x in (val[1], val[2])) or val[1] == own or val[2] == own:
+            return "bad", "the list is extended"
+        return "unknown", ""
+    if val[0] == "list" and val[1]:
+        return "bad", "a list display with new entries"
+    kf = k.kfold(val)
+    if kf is not None and kf.kind == "COMPR":
+        s = kf.source
+        if isinstance(s, tuple) and s and s[0] == "filtered":
+            s = s[1]
+        keeps_target = kf.term == ("e",) or (kf.term[0] == "tup" and len(kf.term[1]) == 2 and kf.term[1][1] == ("t",))
+        if s == own and keeps_target:
+            return "ok", "target-preserving filter/map of itself (%s)" % kf.text()
+        if s == own:
+            return "bad", "entries are rewritten as `%s` (the successor index is not kept)" % show(kf.term)
+        if s[0] == "attr" and s[1] == own[1] and s[2] != "next_states":
+            return "bad", "drawn from `%s`, another list of the node" % show(s)
+        return "unknown", ""
+    if val[0] == "res" and val[1] in sx.loops:
+        L = sx.loops[val[1]]
+        fo = classify(L).get(val[2])
+        if L.source == own and fo is not None and fo.kind == "COLLECT" and fo.init == ("list", ()):
+            if fo.term == ("elem", L.id) or (fo.term[0] == "tup" and len(fo.term[1]) == 2 and fo.term[1][1] == simp(("idx", ("elem", L.id), C(1)))):
+                return "ok", "target-preserving map of itself"
+            return "bad", "entries are rewritten as `%s`" % show(fo.term)
+    return "unknown", ""
+
+
 def r6_monotone(ctx, chk, rule="C03.6"):
     """Every write to next_states after construction shrinks it."""
     from .C04 import next_states_writers
@@ -651,7 +731,9 @@ def r6_monotone(ctx, chk, rule="C03.6"):
         if cls is None:
             chk.undecided(rule, g.where(), "%s writes next_states outside a class" % g.short)
             continue
-        sx = SymX(ctx, g, cls, inline_depth=1).run()
+        from ..ctxbind import specialise
+        g = specialise(ctx, g)
+        sx = SymX(ctx, g, cls, inline_depth=2).run()
         k = K.Kernel.__new__(K.Kernel)
         k.ctx, k.func, k.sx, k.ret, k._cls = ctx, g, sx, sx.ret, {}
         ps = [p for p in g.params if p != "self"]
@@ -668,26 +750,15 @@ def r6_monotone(ctx, chk, rule="C03.6"):
                 if val == ("list", ()):
                     chk.ok(rule, g.where(), "%s: next_states := []" % g.short)
                     continue
-                kf = k.kfold(val)
                 own = ("attr", base, "next_states")
-                if kf is not None and kf.kind == "COMPR":
-                    s = kf.source
-                    if isinstance(s, tuple) and s and s[0] == "filtered":
-                        s = s[1]
-                    keeps_target = kf.term == ("e",) or (kf.term[0] == "tup" and len(kf.term[1]) == 2 and kf.term[1][1] == ("t",))
-                    if s == own and keeps_target:
-                        chk.ok(rule, g.where(), "%s: next_states := target-preserving filter/map of itself (%s)" % (g.short, kf.text()))
-                        continue
-                    # chain through a local list built from own list (remove_path style)
-                if val[0] == "res":
-                    L = sx.loops[val[1]]
-                    fo = classify(L).get(val[2])
-                    if L.source == own and fo is not None and fo.kind == "COLLECT" and fo.term[0] == "tup" \
-                            and fo.term[1][1] == simp(("idx", ("elem", L.id), C(1))) and fo.init == ("list", ()):
-                        chk.ok(rule, g.where(), "%s: next_states := target-preserving map of itself" % g.short)
-                        continue
-                chk.violation(rule, g.where(), "%s assigns `%s` to next_states: not a filter / target-preserving map of the state's own list, so a transition may be added after restriction" % (g.short, show(val)),
-                              expected="filter of itself, [], or target-preserving map", found=show(val), construct="%s non-shrinking write" % g.short)
+                verdict, text = _shrinks(k, sx, val, own)
+                if verdict == "ok":
+                    chk.ok(rule, g.where(), "%s: next_states := %s" % (g.short, text))
+                elif verdict == "bad":
+                    chk.violation(rule, g.where(), "%s assigns `%s` to next_states: %s, so a transition may be added or redirected after restriction" % (g.short, show(val)[:160], text),
+                                  expected="filter of itself, [], or target-preserving map", found=show(val)[:200], construct="%s non-shrinking write" % g.short)
+                else:
+                    chk.undecided(rule, g.where(), "%s assigns `%s` to next_states: not recognised as a filter / target-preserving map of the state's own list" % (g.short, show(val)[:200]))
             elif e[1] == "call" and e[2][0] == "mcall" and e[2][1][0] == "attr" and e[2][1][2] == "next_states":
                 n += 1
                 if e[2][2] in ("remove", "pop", "clear"):
